@@ -10,18 +10,26 @@ TB = ("Trusted base: Lean 4.33 kernel (+ leanchecker in the thorough tier); axio
 
 CHECKS = {
  'C01': dict(
-   text=("Partial. Proved for all values: every scalar rendering the writer produces is read back by the corresponding scanner rule action "
-         "as the same value — C01_int_dec / C01_int64_dec / C01_int_hex / C01_int64_hex (every 32/64-bit integer, both formats, through "
-         "C08's theorems), C01_writer_* (that is what the writer prints), C01_string (the documented reading of a string literal inverts "
-         "the writer's escaping byte for byte for every NUL-free string and stops at the closing quote), C01_float_shape + "
-         "C01_float_readback (the text written for any finite double is a float literal whose correctly rounded value is stored). With "
-         "C18 (tokenization = documented definitions), C19_bytes and C08 this is the lexeme layer of the round trip. The composition "
-         "(token boundaries, grammar, tree rebuilding) is decided by the direct oracle: dump -> write -> read_string -> dump -> write on "
-         "trees from API histories, parsed texts and boundary value pools under sampled/all option words, precisions, tab widths and "
-         "default formats, with an independent Python implementation of the property's equivalence (glibc-exact printf rendering, "
-         "correctly rounded float) and text idempotence."),
-   note=TB + "Not a theorem: the end-to-end composition (token boundaries + tree rebuilding through the parser). Known finding C01:member-name~/^(true|false)$/i is reproduced deliberately on every run.",
-   technique='per-lexeme round-trip theorems in Lean 4 + write/read/compare direct oracle + byte-exact writer correspondence', ref='§5 C01'),
+   text=("Proved end to end at the model level (Properties/C01RoundTrip.lean): C01_roundtrip_string / _stream / _file — for every "
+         "configuration c meeting two explicit decidable side conditions, every world, every reading configuration and every fuel "
+         ">= 8*|text|+10, reading the bytes config_write produced succeeds and yields exactly expectedRoot c; C01_roundtrip_settings / "
+         "C01_expected_same spell that out per path: same names, order, child counts and types, integers with their value and "
+         "effective format, booleans as truth values, strings byte for byte (NULL as \"\"), each float = the correctly rounded value "
+         "of its written text. The proof is the composition of C19_bytes (written bytes = item sequence), C01_lex_items (the compiled "
+         "scanner cuts those bytes exactly at the item boundaries and returns each item's token — via a kernel-checked simulation "
+         "certificate between the flex tables and a lexeme automaton, C18_equiv, the per-lexeme theorems C01_int_*/C01_string/"
+         "C01_float_*), C01_parse_rebuilds (the LALR parser over the translated tables, run on that token sequence, accepts and "
+         "rebuilds the tree — ~110 kernel-decided table facts plus simulation lemmas by mutual induction over the tree) and "
+         "C03_parse_fuel (termination). Side conditions: LexOK (valid names that do not spell a boolean literal — "
+         "C01_boolword_name_is_boolean proves the recorded finding in general —, no setting of type NONE, integers in range, NUL-free "
+         "strings, finite floats whose rendering fits the buffer: discharged for the default notation by C01_floatOK_default) and "
+         "ParseOK (well-formed tree, nesting <= 1666: C01_deep_nesting_exhausts proves that beyond the parser's stack the text is "
+         "rejected — the second recorded finding). On the implementation the direct oracle decides the same: dump -> write -> "
+         "read_string -> dump -> write on trees from API histories, parsed texts and boundary value pools under sampled/all option "
+         "words, precisions, tab widths and default formats, with an independent Python implementation of the property's equivalence "
+         "(glibc-exact printf rendering, correctly rounded float) and text idempotence."),
+   note=TB + "Not proved: idempotence of the text (write after re-read gives the same bytes) and, with scientific notation on, two float side conditions (rendering length, no overflow on read-back) stay hypotheses — both decided by the oracle. Known findings C01:member-name~/^(true|false)$/i and C01:nesting-beyond-parser-stack are reproduced deliberately on every run.",
+   technique='end-to-end round-trip theorem in Lean 4 (writer items -> compiled scanner -> LALR parser over translated tables, kernel-checked certificates) + write/read/compare direct oracle + byte-exact writer correspondence', ref='§5 C01'),
  'C02': dict(
    text=("Proved: C02_sound — whenever the model of bison's yyparse loop over the TRANSLATED tables (with the real scanner model and the real "
          "actions) accepts, the input lexes to a token sequence whose kinds are derivable from the documented grammar (Grammar.lean, 41 "
@@ -40,7 +48,7 @@ CHECKS = {
    note=TB + "Which semantic error is reported first and which tree an accepted text denotes are decided by exhaustive-to-bound correspondence (quick: length 6, thorough: 9) and the model-as-specification, not by a grammar-level theorem; when a translated action or table changes, the failing-input search runs against the model over the committed reference translation; known findings C02:string-element-mismatch-line and C02:parser-stack-limit are reproduced by the model.",
    technique='LR soundness and completeness theorems over translated LALR tables (kernel-decided certificate checks + loop invariants) in Lean 4; exhaustive-to-bound correspondence against an independent grammar recogniser', ref='§5 C02'),
  'C03': dict(
-   text=("Partial. 42 theorems about the part of the property that is logic. No stray output: C03_no_echo / C03_read_no_echo — for any "
+   text=("Partial. 62 theorems about the part of the property that is logic. No stray output: C03_no_echo / C03_read_no_echo — for any "
          "bytes, through any include files, yylex over the translated tables never takes flex's default ECHO rule (the only action "
          "that writes to stdout). No process exit: the outcome type of a read has no exit case; C03_actions_known (no unrecognised "
          "scanner/parser action, EOF action and helper macros catalogued); C03_input_override + C03_failing_read (the translated "
@@ -52,14 +60,18 @@ CHECKS = {
          "function; C03_stack_bounded (never more than the documented 10000 entries), C03_stack_limit (then 'memory exhausted'). "
          "Container arithmetic for every operation sequence, parametric in the chunk constants: strbuf (length+len+1 <= capacity, the "
          "& ~63 form = arithmetic rounding), strvec, child vectors (store index inside the allocation after any adds/removes), "
-         "libconfig_format_double (never more than buflen bytes). Termination of the scanner: every match consumes >= 1 byte; "
-         "C03_lex_fuel. Usable afterwards: C04_read (well-formed whatever was read). What Lean cannot decide — memory errors, UB, "
+         "libconfig_format_double (never more than buflen bytes). Termination (Properties/C03Term.lean): every match consumes >= 1 byte; "
+         "C03_no_underflow (along every run a reduction finds more stack entries than it pops: the model's drop/headD never "
+         "totalise), C03_reductions_bounded (at most 7 consecutive iterations consume no token — a kernel-checked rank certificate "
+         "over the translated tables), C03_parse_fuel (8n+10 iterations suffice for n tokens), C03_read_terminates and "
+         "C03_read_fuel_irrelevant (for reads without readable include files the model's fuel is unobservable above the bound). "
+         "Usable afterwards: C04_read (well-formed whatever was read). What Lean cannot decide — memory errors, UB, "
          "leaks, hangs in the C code — is VALIDATED, not proved: one harness under ASan+UBSan+LSan with exit()/stdout/stderr traps and "
          "a per-op alarm runs grammar-derived texts, coverage-guided mutants, sizes 0..40 KiB across the 8/16/32 KiB boundaries, "
          "tokens longer than the buffer, unterminated constructs, NUL bytes, hostile includes (missing, directory, self, mutual, "
          "12-chains, 31..70 files), nesting to 12000 levels, failing streams/files; every read is followed by the "
          "traverse/lookup/write/remove/modify/re-read/destroy battery and compared with the model."),
-   note=TB + "PARTIAL: C memory safety, leaks inside generated code and hangs are observed on executed paths only. Not proved: the parser loop's own fuel bound (no epsilon-reduction loop), stack underflow freedom on reductions. Three defects repaired (directory include -> exit(2); lone backslash in INCLUDE mode -> ECHO; failing fread -> exit(2)).",
+   note=TB + "PARTIAL: C memory safety, leaks inside generated code and hangs are observed on executed paths only. Termination of reads that pull in include files is proved on the scanner side only (C10_tokens_exist). Three defects repaired (directory include -> exit(2); lone backslash in INCLUDE mode -> ECHO; failing fread -> exit(2)).",
    technique='kernel-decided table-safety, stack-bound, container-arithmetic and no-echo/no-exit theorems in Lean 4 over translated tables + sanitizer battery on coverage-guided mutations (validation)', ref='§5 C03'),
  'C04': dict(
    text=("Theorems: C04_step_all — EVERY operation of the API alphabet, reads included, with arbitrary arguments, succeeding or failing, "
@@ -121,20 +133,24 @@ CHECKS = {
    note=TB + "The C++ exception mapping of the same record is checked under C17.",
    technique='history-independence theorems in Lean 4 (incl. parser-loop invariants) + exhaustive-to-bound history correspondence', ref='§5 C09'),
  'C10': dict(
-   text=("Partial. Proved (21 theorems about the include mechanism, for every scan state, world and include function): C10_depth_limit "
-         "(with the documented literal 10 and its bridge to the translated MAX_INCLUDE_DEPTH; \"include file nesting too deep\" at the "
-         "current file/line), C10_push, C10_missing_first (\"cannot open include file\", frame popped, file = the including file, line = "
-         "the directive's line), C10_fn_error, C10_empty_list, C10_order / C10_next_file / C10_pop (files of a frame in list order, "
-         "frames LIFO), C10_missing_later (the exact statement of the recorded finding), C10_lineno_per_buffer, C10_directive_line, "
-         "C10_paths(_relative/_absolute/_no_dir), C10_provenance_step, C10_current_file. The splice equivalence (read with includes = "
-         "read of the spliced text) is kept as the visible statement C10_spliceStatement and decided by the direct oracle: for include "
-         "forests cut at line boundaries (fan-out, depth 0..12, > 32 files, empty files, no trailing newline, files ending inside a "
-         "group/list/string/comment, names with quotes/backslashes/spaces, with/without include dir, absolute paths, default and custom "
-         "multi-path include functions) read_file(top) and read_string(spliced text) give the same tree up to line/file; every named "
-         "setting reports the generator's recorded (file, line); chains of 0..12 succeed iff <= 10; cycles, missing targets and "
-         "include-function errors give the documented error triple."),
-   note=TB + "Known finding C10:missing-non-first-file-location (reproduced and printed). The end-to-end splice equivalence is not a theorem.",
-   technique='mechanism theorems over the include-stack model in Lean 4 + spliced-text / provenance / depth direct oracles on generated include forests', ref='§5 C10'),
+   text=("Proved: C10_splice — for every include tree of at most 10 levels cut at line boundaries (IncludeTreeOK': every named file "
+         "exists, plain lines, bytes 1..255, the last file of a directive ends in a newline or nothing follows the directive on its "
+         "line), reading the top file through the include machinery and reading the spliced text as one string give the same result, "
+         "the same outcome and the same configuration up to the recorded lines and files (C10_splice_config: also the same error text "
+         "and destructor log); C10_tokens / C10_tokens_exist — the two scans deliver the same token sequence (a simulation between "
+         "the scanner with its include stack and the scanner on the flat text, carried through yylex and the parser loop). The first "
+         "formulation of this statement was REFUTED by the proof attempt (C10_spliceStatement_false: text behind the directive on its "
+         "line glued to an unterminated last line; a NUL inside a path) — the implementation agrees with the model there (seam "
+         "correspondence). Mechanism theorems for every scan state, world and include function: C10_depth_limit (the documented 10 and "
+         "its bridge to MAX_INCLUDE_DEPTH), C10_push, C10_missing_first, C10_fn_error, C10_empty_list, C10_order / C10_next_file / "
+         "C10_pop, C10_missing_later (the recorded finding, exactly), C10_lineno_per_buffer, C10_directive_line, C10_paths*, "
+         "C10_provenance_step, C10_current_file, C10_actions (the translated include/EOF actions are the catalogued ones). On the "
+         "implementation the direct oracle decides the same on generated include forests (fan-out, depth 0..12, > 32 files, empty "
+         "files, no trailing newline, files ending inside a group/list/string/comment, odd names, with/without include dir, absolute "
+         "paths, default and custom multi-path include functions): read_file(top) vs read_string(spliced text), recorded (file, line) "
+         "of every setting, chains succeed iff <= 10, error triples for cycles / missing targets / include-function errors."),
+   note=TB + "C10_splice keeps one hypothesis: the read with includes does not run out of the model's fuel (the scanner side is unconditional: C10_tokens_exist). Known finding C10:missing-non-first-file-location (reproduced and printed).",
+   technique='splice-equivalence theorem by simulation in Lean 4 (scanner with include stack vs flat text, through the parser loop) + mechanism theorems + spliced-text / provenance / depth direct oracles on generated include forests', ref='§5 C10'),
  'C11': dict(
    text=("Proved: C11_balanced — for every world, configuration, source, fuel and EVERY outcome (accept, syntax/semantic abort, include "
          "error, stack exhaustion, ...), in the event list of the read every file the library opened has been closed and every buffer "
@@ -185,8 +201,9 @@ CHECKS = {
    text=("Locale state machine (process-wide radix, optional thread locale): C15_inside (radix '.' inside every read/write), C15_restore "
          "(override then restore is the identity on the locale state — the repaired defect is the negative example), C15_global_untouched, "
          "C15_results/C15_independent (a computation between override and restore does not depend on the locale set-up). Tied to the code "
-         "with a comma-decimal locale synthesised offline: global C/comma x thread none/comma, through the three read entry points, "
-         "config_write, config_write_file + read back; observed: written text, round trip, uselocale(NULL) identity, setlocale(LC_ALL,NULL), "
+         "with a comma-decimal locale synthesised offline: global C/comma x thread none/comma, through the three read entry points and "
+         "every outcome of a read (success, parse error, failing caller stream, file whose read fails, missing file), config_write, "
+         "config_write_file + read back and a failing config_write_file; observed: written text, round trip, uselocale(NULL) identity, setlocale(LC_ALL,NULL), "
          "printf radix before/after."),
    note=TB + "Only the radix character is modelled; the C++ wrappers call the same C functions (checked under C17).",
    technique='state-machine theorems in Lean 4 + differential correspondence under a synthesised comma-decimal locale', ref='§5 C15'),
@@ -208,9 +225,12 @@ CHECKS = {
          "equation between the hooks before, the destructor log and the hooks after; hence C16_once (no hook logged twice), C16_alive "
          "(never for a setting still alive), C16_nodup_preserved, C16_destroy (everything released), C16_children_first (post-order), "
          "C16_removeElem, C16_setHook_silent, C16_no_destructor. All histories, all trees. The model's destructor log is compared with the "
-         "real destructor calls per operation; the harness overwrites the caller's buffers after set_string/set_include_dir and runs under "
+         "real destructor calls per operation. String half: every (old, new) pair of string assignments in every kind of parent — NULL, "
+         "empty, long, all byte values, and the setting's own string passed back in —, the include directory likewise, a member "
+         "overridden under its own name string; the harness overwrites the caller's buffers after each call, holds strings the "
+         "library handed out (values, names, include directory) across unrelated activity and compares them afterwards, all under "
          "ASan/LSan, which is what observes the copy/lifetime part of the property on the real code."),
-   note=TB + "String-handle lifetime (strings handed out stay valid until changed) is observed by ASan on the implementation, not modelled.",
+   note=TB + "String-handle lifetime is observed by ASan and the held-string comparison on the implementation, not modelled (the model has value semantics). One defect repaired (a library-owned string passed back in was read after being freed: 3 sites).",
    technique='conservation law (multiset of live hooks) proved in Lean 4 by induction, including the parser loop; differential correspondence on destructor logs', ref='§5 C16'),
  'C17': dict(
    text=("Cpp.lean defines every C++ operation as its own precondition checks followed by the corresponding C model function, so "
